@@ -27,7 +27,7 @@ with open(os.path.join(S, 'MATRIX.md'), 'w') as f:
         f.write('| %s | %s | %s | %s | %d | %s |\n' % (s, rnd, ', '.join(x.replace('src/', '') for x in files), c, rc, msg.replace('|', '/')))
     f.write('\n%d of %d seeds are reported as VIOLATION (exit 1) by the quick tier of their own property\'s check.\n' % (sum(1 for r in rows if r[4] == 1), len(rows)))
     f.write('\nFirst contact, i.e. against the checks as they stood before the round was seen (reported / inconclusive / missed of 36): round 2: 22 / 6 / 8; '
-            'round 3: 9 / 9 / 18 (`round3-first-contact.txt`); round 4: 4 / 6 / 26 (`round4-first-contact.txt`); round 5: 20 / 5 / 11 (`round5-first-contact.txt`); round 6 (one seed per property): see `round6-first-contact.txt`.  Round 1 was used while the '
+            'round 3: 9 / 9 / 18 (`round3-first-contact.txt`); round 4: 4 / 6 / 26 (`round4-first-contact.txt`); round 5: 20 / 5 / 11 (`round5-first-contact.txt`); round 6 (one seed per property, of 18): 17 / 1 / 0 (`round6-first-contact.txt`).  Round 1 was used while the '
             'checks were being built.  See DESIGN.md section 10 for what was strengthened after each round and for the three seeds that are '
             'recorded as not covered (C11-G, C12-H, C14-H, C04-J, C09-J).\n')
 print('%d rows, %d detected' % (len(rows), sum(1 for r in rows if r[4] == 1)))
